@@ -147,6 +147,16 @@ def sub (k : KState) (o : List PyKey) : KState := ofList (k.iterObjs.filter fun 
 def xor (k : KState) (o : List PyKey) : KState :=
   ofList ((k.sub o).iterObjs ++ (ofList ((ofList o).iterObjs.filter fun x => !(k.count x))).iterObjs)
 
+/-- `other - self` (`__rsub__`): `other` becomes a `Variables` unless it is a Set;
+    `self._from_iterable(value for value in other if value not in self)` -/
+def rsub (k : KState) (o : List PyKey) : KState := ofList ((ofList o).iterObjs.filter fun x => !(k.count x))
+
+/-- `other | self`: `collections.abc.Set` sets `__ror__ = __or__`, so the labels of SELF come first -/
+def ror (k : KState) (o : List PyKey) : KState := k.or o
+
+/-- `v != other`: `not (self == other)` -/
+def neOther (k : KState) (o : KOther) : Bool := !(k.eqOther o)
+
 /-! ### the extended object-level alphabet -/
 
 inductive KOp3 where
